@@ -32,8 +32,62 @@ def type_table(py):
             return names.get(k)
         return None
 
+    def list_of(v):
+        """names of the TYPE_* constants in a list-valued expression"""
+        if isinstance(v, (ast.List, ast.Tuple)) and all(isinstance(e, ast.Name) for e in v.elts):
+            return [e.id for e in v.elts]
+        if isinstance(v, ast.Name) and v.id in lists:
+            return list(lists[v.id])
+        if isinstance(v, ast.Call) and P.call_name(v) in ('list', 'tuple') and len(v.args) == 1:
+            return list_of(v.args[0])
+        if isinstance(v, ast.BinOp) and isinstance(v.op, ast.Add):
+            a, b = list_of(v.left), list_of(v.right)
+            return a + b if a is not None and b is not None else None
+        return None
+
+    def comp_pairs(v):
+        """{x.target_fundamental: x for x in L} / dict((x.target_fundamental, x) for x in L): the list L"""
+        if isinstance(v, ast.Call) and P.call_name(v) == 'dict' and len(v.args) == 1 and isinstance(v.args[0], (ast.GeneratorExp, ast.ListComp)) \
+                and isinstance(v.args[0].elt, ast.Tuple) and len(v.args[0].elt.elts) == 2:
+            k, x, gens = v.args[0].elt.elts[0], v.args[0].elt.elts[1], v.args[0].generators
+        elif isinstance(v, ast.DictComp):
+            k, x, gens = v.key, v.value, v.generators
+        else:
+            return None
+        if len(gens) == 1 and not gens[0].ifs and isinstance(gens[0].target, ast.Name) and isinstance(x, ast.Name) and x.id == gens[0].target.id \
+                and P.src(k) == '%s.target_fundamental' % x.id:
+            return list_of(gens[0].iter)
+        return None
+
+    def add_dict(d):
+        for k, v in zip(d.keys, d.values):
+            kk = py.try_fold(k, m) if k is not None else None
+            tn = tname(v)
+            if isinstance(kk, str) and tn:
+                names[kk] = tn
+
     for st in m.tree.body:
-        if isinstance(st, ast.Assign) and len(st.targets) == 1:
+        if isinstance(st, ast.Assign) and len(st.targets) == 1 and isinstance(st.targets[0], ast.Name) and st.targets[0].id == 'type_names' \
+                and (comp_pairs(st.value) is not None or isinstance(st.value, ast.Dict)):
+            if isinstance(st.value, ast.Dict):
+                add_dict(st.value)
+            else:
+                for c in comp_pairs(st.value):
+                    names[consts[c]] = c
+        elif isinstance(st, ast.Expr) and isinstance(st.value, ast.Call) and P.src(st.value.func) == 'type_names.update':
+            for a in st.value.args:
+                if isinstance(a, ast.Dict):
+                    add_dict(a)
+                elif comp_pairs(a) is not None:
+                    for c in comp_pairs(a):
+                        names[consts[c]] = c
+            for k in st.value.keywords:
+                if k.arg and tname(k.value):
+                    names[k.arg] = tname(k.value)
+        elif isinstance(st, ast.Assign) and len(st.targets) == 1 and isinstance(st.targets[0], ast.Name) and not (isinstance(st.value, ast.Call) and P.call_name(st.value) == 'Type') \
+                and list_of(st.value) is not None and (isinstance(st.value, (ast.BinOp, ast.Tuple)) or (isinstance(st.value, ast.Call) and P.call_name(st.value) == 'tuple')):
+            lists[st.targets[0].id] = list_of(st.value)
+        elif isinstance(st, ast.Assign) and len(st.targets) == 1:
             t, v = st.targets[0], st.value
             if isinstance(t, ast.Name) and isinstance(v, ast.Call) and P.call_name(v) == 'Type':
                 kw = dict((k.arg, py.try_fold(k.value, m)) for k in v.keywords)
